@@ -1103,6 +1103,508 @@ theorem ushiftS_total {n f c a : Nat} {t z : Tm} {s : St}
   unfold ushiftS
   simp only [bind_run, sshiftS_total hz hf hfu, sshift_ushift, pure_run]
 
+/-! ## Totality of `openS` and `freeAtS` on fully solved terms -/
+
+theorem cellGet_run {β} (id : Nat) (k : Option Tm → M β) (s : St) :
+    (cellGet id >>= k) s = k (cellVal s.store id) s := rfl
+
+mutual
+/-- `openS` on a hole-free term with a fully solved argument answers, with fuel above the sizes -/
+theorem openS_hf_ok {m : Nat} {u zu : Tm} {s : St} (hzu : zonk m s.store u = some zu)
+    (hfu : zu.holeFree = true) : ∀ (t : Tm) (f i sh : Nat), t.holeFree = true →
+    t.size + m + zu.size < f → openS f t i u sh s = .ok (openT t i zu sh) s
+  | _, 0, _, _, _, hs => by omega
+  | .hole _ _, _+1, _, _, h, _ => by cases h
+  | .type, _+1, _, _, _, _ | .int, _+1, _, _, _, _ | .bool, _+1, _, _, _, _
+  | .tt, _+1, _, _, _, _ | .ff, _+1, _, _, _, _ | .lit _, _+1, _, _, _, _ => by
+      simp only [openS, openT, pure_run]
+  | .var x j, f+1, i, sh, _, hs => by
+      simp only [Tm.size] at hs
+      simp only [openS, openT]
+      split
+      · exact ushiftS_total hzu hfu (by omega)
+      · split <;> simp only [pure_run] <;> simp_all
+  | .lam x im d b, f+1, i, sh, h, hs => by
+      simp only [Tm.holeFree, Bool.and_eq_true] at h
+      simp only [Tm.size] at hs
+      have h1 := openS_hf_ok hzu hfu d f i sh h.1 (by omega)
+      have h2 := openS_hf_ok hzu hfu b f (i+1) (sh+1) h.2 (by omega)
+      simp only [openS, openT, bind_run, h1, h2, pure_run]
+  | .pi x im d b, f+1, i, sh, h, hs => by
+      simp only [Tm.holeFree, Bool.and_eq_true] at h
+      simp only [Tm.size] at hs
+      have h1 := openS_hf_ok hzu hfu d f i sh h.1 (by omega)
+      have h2 := openS_hf_ok hzu hfu b f (i+1) (sh+1) h.2 (by omega)
+      simp only [openS, openT, bind_run, h1, h2, pure_run]
+  | .app d b, f+1, i, sh, h, hs => by
+      simp only [Tm.holeFree, Bool.and_eq_true] at h
+      simp only [Tm.size] at hs
+      have h1 := openS_hf_ok hzu hfu d f i sh h.1 (by omega)
+      have h2 := openS_hf_ok hzu hfu b f i sh h.2 (by omega)
+      simp only [openS, openT, bind_run, h1, h2, pure_run]
+  | .bin op d b, f+1, i, sh, h, hs => by
+      simp only [Tm.holeFree, Bool.and_eq_true] at h
+      simp only [Tm.size] at hs
+      have h1 := openS_hf_ok hzu hfu d f i sh h.1 (by omega)
+      have h2 := openS_hf_ok hzu hfu b f i sh h.2 (by omega)
+      simp only [openS, openT, bind_run, h1, h2, pure_run]
+  | .letg ds b, f+1, i, sh, h, hs => by
+      simp only [Tm.holeFree, Bool.and_eq_true] at h
+      simp only [Tm.size] at hs
+      have h1 := openDefsS_hf_ok hzu hfu ds f (i + ds.len) (sh + ds.len) h.1 (by omega)
+      have h2 := openS_hf_ok hzu hfu b f (i + ds.len) (sh + ds.len) h.2 (by omega)
+      simp only [openS, openT, bind_run, h1, h2, pure_run]
+  | .neg d, f+1, i, sh, h, hs => by
+      simp only [Tm.holeFree] at h
+      simp only [Tm.size] at hs
+      have h1 := openS_hf_ok hzu hfu d f i sh h (by omega)
+      simp only [openS, openT, bind_run, h1, pure_run]
+  | .ite a d b, f+1, i, sh, h, hs => by
+      simp only [Tm.holeFree, Bool.and_eq_true] at h
+      simp only [Tm.size] at hs
+      have h0 := openS_hf_ok hzu hfu a f i sh h.1.1 (by omega)
+      have h1 := openS_hf_ok hzu hfu d f i sh h.1.2 (by omega)
+      have h2 := openS_hf_ok hzu hfu b f i sh h.2 (by omega)
+      simp only [openS, openT, bind_run, h0, h1, h2, pure_run]
+theorem openDefsS_hf_ok {m : Nat} {u zu : Tm} {s : St} (hzu : zonk m s.store u = some zu)
+    (hfu : zu.holeFree = true) : ∀ (ds : Defs) (f i sh : Nat), ds.holeFree = true →
+    ds.size + m + zu.size < f → openDefsS f ds i u sh s = .ok (openDefs ds i zu sh) s
+  | _, 0, _, _, _, hs => by omega
+  | .nil, _+1, _, _, _, _ => by simp only [openDefsS, openDefs, pure_run]
+  | .cons x a d b, f+1, i, sh, h, hs => by
+      simp only [Defs.holeFree, Bool.and_eq_true] at h
+      simp only [Defs.size] at hs
+      have h0 := openS_hf_ok hzu hfu a f i sh h.1.1 (by omega)
+      have h1 := openS_hf_ok hzu hfu d f i sh h.1.2 (by omega)
+      have h2 := openDefsS_hf_ok hzu hfu b f i sh h.2 (by omega)
+      simp only [openDefsS, openDefs, bind_run, h0, h1, h2, pure_run]
+end
+
+theorem openS_total_aux {m : Nat} {u zu : Tm} {s : St} (hzu : zonk m s.store u = some zu)
+    (hfu : zu.holeFree = true) : ∀ (n : Nat),
+    (∀ t z f i sh, zonk n s.store t = some z → z.holeFree = true → n + z.size + m + zu.size < f →
+      openS f t i u sh s = .ok (openT z i zu sh) s) ∧
+    (∀ ds zs f i sh, zonkDefs n s.store ds = some zs → zs.holeFree = true →
+      n + zs.size + m + zu.size < f → openDefsS f ds i u sh s = .ok (openDefs zs i zu sh) s) := by
+  intro n
+  induction n with
+  | zero => constructor <;> (intro t z f i sh h; simp [zonk, zonkDefs] at h)
+  | succ n ih =>
+    obtain ⟨ih1, ih2⟩ := ih
+    constructor
+    · intro t z f i sh hz hf hs
+      cases f with
+      | zero => omega
+      | succ f =>
+      cases t
+      case hole id k =>
+        simp only [zonk] at hz
+        split at hz
+        · next sub hsub =>
+          cases hzs : zonk n s.store sub with
+          | none => simp [hzs] at hz
+          | some zs =>
+            simp only [hzs, Option.some.injEq] at hz
+            subst hz
+            have hf' := hf
+            rw [ushift_holeFree] at hf'
+            rw [ushift_size] at hs
+            have hv : cellVal s.store id = some sub := cellVal_some.2 hsub
+            have h1 : ushiftS f 0 k sub s = .ok (ushift 0 k zs) s :=
+              ushiftS_total hzs hf' (by omega)
+            have h2 := openS_hf_ok hzu hfu (ushift 0 k zs) f i sh hf (by rw [ushift_size]; omega)
+            simp only [openS]
+            rw [cellGet_run, hv]
+            simp only [bind_run, h1, h2]
+        · simp only [Option.some.injEq] at hz; subst hz; cases hf
+      case lam x im d b =>
+        simp only [zonk] at hz
+        cases hzd : zonk n s.store d with
+        | none => simp [hzd] at hz
+        | some zd =>
+          cases hzb : zonk n s.store b with
+          | none => simp [hzd, hzb] at hz
+          | some zb =>
+            simp only [hzd, hzb, Option.some.injEq] at hz
+            subst hz
+            simp only [Tm.holeFree, Bool.and_eq_true] at hf
+            simp only [Tm.size] at hs
+            have h1 := ih1 d zd f i sh hzd hf.1 (by omega)
+            have h2 := ih1 b zb f (i+1) (sh+1) hzb hf.2 (by omega)
+            skip
+            simp only [openS, openT, bind_run, h1, h2, pure_run]
+      case pi x im d b =>
+        simp only [zonk] at hz
+        cases hzd : zonk n s.store d with
+        | none => simp [hzd] at hz
+        | some zd =>
+          cases hzb : zonk n s.store b with
+          | none => simp [hzd, hzb] at hz
+          | some zb =>
+            simp only [hzd, hzb, Option.some.injEq] at hz
+            subst hz
+            simp only [Tm.holeFree, Bool.and_eq_true] at hf
+            simp only [Tm.size] at hs
+            have h1 := ih1 d zd f i sh hzd hf.1 (by omega)
+            have h2 := ih1 b zb f (i+1) (sh+1) hzb hf.2 (by omega)
+            skip
+            simp only [openS, openT, bind_run, h1, h2, pure_run]
+      case app d b =>
+        simp only [zonk] at hz
+        cases hzd : zonk n s.store d with
+        | none => simp [hzd] at hz
+        | some zd =>
+          cases hzb : zonk n s.store b with
+          | none => simp [hzd, hzb] at hz
+          | some zb =>
+            simp only [hzd, hzb, Option.some.injEq] at hz
+            subst hz
+            simp only [Tm.holeFree, Bool.and_eq_true] at hf
+            simp only [Tm.size] at hs
+            have h1 := ih1 d zd f i sh hzd hf.1 (by omega)
+            have h2 := ih1 b zb f i sh hzb hf.2 (by omega)
+            skip
+            simp only [openS, openT, bind_run, h1, h2, pure_run]
+      case bin op d b =>
+        simp only [zonk] at hz
+        cases hzd : zonk n s.store d with
+        | none => simp [hzd] at hz
+        | some zd =>
+          cases hzb : zonk n s.store b with
+          | none => simp [hzd, hzb] at hz
+          | some zb =>
+            simp only [hzd, hzb, Option.some.injEq] at hz
+            subst hz
+            simp only [Tm.holeFree, Bool.and_eq_true] at hf
+            simp only [Tm.size] at hs
+            have h1 := ih1 d zd f i sh hzd hf.1 (by omega)
+            have h2 := ih1 b zb f i sh hzb hf.2 (by omega)
+            skip
+            simp only [openS, openT, bind_run, h1, h2, pure_run]
+      case letg ds b =>
+        simp only [zonk] at hz
+        cases hzd : zonkDefs n s.store ds with
+        | none => simp [hzd] at hz
+        | some zd =>
+          cases hzb : zonk n s.store b with
+          | none => simp [hzd, hzb] at hz
+          | some zb =>
+            simp only [hzd, hzb, Option.some.injEq] at hz
+            subst hz
+            simp only [Tm.holeFree, Bool.and_eq_true] at hf
+            simp only [Tm.size] at hs
+            have h1 := ih2 ds zd f (i + ds.len) (sh + ds.len) hzd hf.1 (by omega)
+            have h2 := ih1 b zb f (i + ds.len) (sh + ds.len) hzb hf.2 (by omega)
+            have hl : zd.len = ds.len := ZkD_len ⟨n, hzd⟩
+            simp only [openS, openT, bind_run, h1, h2, pure_run, hl]
+      case neg d =>
+        simp only [zonk] at hz
+        cases hzd : zonk n s.store d with
+        | none => simp [hzd] at hz
+        | some zd =>
+          simp only [hzd, Option.some.injEq] at hz
+          subst hz
+          simp only [Tm.holeFree] at hf
+          simp only [Tm.size] at hs
+          have h1 := ih1 d zd f i sh hzd hf (by omega)
+          simp only [openS, openT, bind_run, h1, pure_run]
+      case ite a d b =>
+        simp only [zonk] at hz
+        cases hza : zonk n s.store a with
+        | none => simp [hza] at hz
+        | some za =>
+          cases hzd : zonk n s.store d with
+          | none => simp [hza, hzd] at hz
+          | some zd =>
+            cases hzb : zonk n s.store b with
+            | none => simp [hza, hzd, hzb] at hz
+            | some zb =>
+              simp only [hza, hzd, hzb, Option.some.injEq] at hz
+              subst hz
+              simp only [Tm.holeFree, Bool.and_eq_true] at hf
+              simp only [Tm.size] at hs
+              have h0 := ih1 a za f i sh hza hf.1.1 (by omega)
+              have h1 := ih1 d zd f i sh hzd hf.1.2 (by omega)
+              have h2 := ih1 b zb f i sh hzb hf.2 (by omega)
+              simp only [openS, openT, bind_run, h0, h1, h2, pure_run]
+      case var x j =>
+        simp only [zonk, Option.some.injEq] at hz; subst hz
+        simp only [Tm.size] at hs
+        simp only [openS, openT]
+        split
+        · exact ushiftS_total hzu hfu (by omega)
+        · split <;> simp only [pure_run] <;> simp_all
+      all_goals
+        simp only [zonk, Option.some.injEq] at hz; subst hz
+        simp only [openS, openT, pure_run]
+    · intro ds zs f i sh hz hf hs
+      cases f with
+      | zero => omega
+      | succ f =>
+      cases ds
+      case nil =>
+        simp only [zonkDefs, Option.some.injEq] at hz; subst hz
+        simp only [openDefsS, openDefs, pure_run]
+      case cons x a d b =>
+        simp only [zonkDefs] at hz
+        cases hza : zonk n s.store a with
+        | none => simp [hza] at hz
+        | some za =>
+          cases hzd : zonk n s.store d with
+          | none => simp [hza, hzd] at hz
+          | some zd =>
+            cases hzb : zonkDefs n s.store b with
+            | none => simp [hza, hzd, hzb] at hz
+            | some zb =>
+              simp only [hza, hzd, hzb, Option.some.injEq] at hz
+              subst hz
+              simp only [Defs.holeFree, Bool.and_eq_true] at hf
+              simp only [Defs.size] at hs
+              have h0 := ih1 a za f i sh hza hf.1.1 (by omega)
+              have h1 := ih1 d zd f i sh hzd hf.1.2 (by omega)
+              have h2 := ih2 b zb f i sh hzb hf.2 (by omega)
+              simp only [openDefsS, openDefs, bind_run, h0, h1, h2, pure_run]
+
+theorem openS_total {n m f i sh : Nat} {t u zt zu : Tm} {s : St}
+    (hz : zonk n s.store t = some zt) (hf : zt.holeFree = true)
+    (hzu : zonk m s.store u = some zu) (hfu : zu.holeFree = true)
+    (hfuel : n + zt.size + m + zu.size < f) :
+    openS f t i u sh s = .ok (openT zt i zu sh) s :=
+  (openS_total_aux hzu hfu n).1 t zt f i sh hz hf hfuel
+
+mutual
+theorem freeAtS_hf_ok (σ : List (Option Tm)) : ∀ (t : Tm) (f i : Nat), t.holeFree = true →
+    t.size < f → freeAtS f σ t i = some (freeAt t i)
+  | _, 0, _, _, hs => by omega
+  | .hole _ _, _+1, _, h, _ => by cases h
+  | .type, _+1, _, _, _ | .int, _+1, _, _, _ | .bool, _+1, _, _, _
+  | .tt, _+1, _, _, _ | .ff, _+1, _, _, _ | .lit _, _+1, _, _, _ | .var _ _, _+1, _, _, _ => by
+      simp only [freeAtS, freeAt]
+  | .lam x im d b, f+1, i, h, hs => by
+      simp only [Tm.holeFree, Bool.and_eq_true] at h
+      simp only [Tm.size] at hs
+      simp only [freeAtS, freeAt, orO, freeAtS_hf_ok σ d f i h.1 (by omega),
+        freeAtS_hf_ok σ b f (i+1) h.2 (by omega)]
+  | .pi x im d b, f+1, i, h, hs => by
+      simp only [Tm.holeFree, Bool.and_eq_true] at h
+      simp only [Tm.size] at hs
+      simp only [freeAtS, freeAt, orO, freeAtS_hf_ok σ d f i h.1 (by omega),
+        freeAtS_hf_ok σ b f (i+1) h.2 (by omega)]
+  | .app d b, f+1, i, h, hs => by
+      simp only [Tm.holeFree, Bool.and_eq_true] at h
+      simp only [Tm.size] at hs
+      simp only [freeAtS, freeAt, orO, freeAtS_hf_ok σ d f i h.1 (by omega),
+        freeAtS_hf_ok σ b f i h.2 (by omega)]
+  | .bin op d b, f+1, i, h, hs => by
+      simp only [Tm.holeFree, Bool.and_eq_true] at h
+      simp only [Tm.size] at hs
+      simp only [freeAtS, freeAt, orO, freeAtS_hf_ok σ d f i h.1 (by omega),
+        freeAtS_hf_ok σ b f i h.2 (by omega)]
+  | .letg ds b, f+1, i, h, hs => by
+      simp only [Tm.holeFree, Bool.and_eq_true] at h
+      simp only [Tm.size] at hs
+      simp only [freeAtS, freeAt, orO, freeAtDefsS_hf_ok σ ds f (i + ds.len) h.1 (by omega),
+        freeAtS_hf_ok σ b f (i + ds.len) h.2 (by omega)]
+  | .neg d, f+1, i, h, hs => by
+      simp only [Tm.holeFree] at h
+      simp only [Tm.size] at hs
+      simp only [freeAtS, freeAt, freeAtS_hf_ok σ d f i h (by omega)]
+  | .ite a d b, f+1, i, h, hs => by
+      simp only [Tm.holeFree, Bool.and_eq_true] at h
+      simp only [Tm.size] at hs
+      simp only [freeAtS, freeAt, orO, freeAtS_hf_ok σ a f i h.1.1 (by omega),
+        freeAtS_hf_ok σ d f i h.1.2 (by omega), freeAtS_hf_ok σ b f i h.2 (by omega)]
+theorem freeAtDefsS_hf_ok (σ : List (Option Tm)) : ∀ (ds : Defs) (f i : Nat), ds.holeFree = true →
+    ds.size < f → freeAtDefsS f σ ds i = some (freeAtDefs ds i)
+  | _, 0, _, _, hs => by omega
+  | .nil, _+1, _, _, _ => by simp only [freeAtDefsS, freeAtDefs]
+  | .cons x a d b, f+1, i, h, hs => by
+      simp only [Defs.holeFree, Bool.and_eq_true] at h
+      simp only [Defs.size] at hs
+      simp only [freeAtDefsS, freeAtDefs, orO, freeAtS_hf_ok σ a f i h.1.1 (by omega),
+        freeAtS_hf_ok σ d f i h.1.2 (by omega), freeAtDefsS_hf_ok σ b f i h.2 (by omega)]
+end
+
+theorem freeAtS_total_aux (σ : List (Option Tm)) : ∀ (n : Nat),
+    (∀ t z f i, zonk n σ t = some z → z.holeFree = true → n + z.size < f →
+      freeAtS f σ t i = some (freeAt z i)) ∧
+    (∀ ds zs f i, zonkDefs n σ ds = some zs → zs.holeFree = true → n + zs.size < f →
+      freeAtDefsS f σ ds i = some (freeAtDefs zs i)) := by
+  intro n
+  induction n with
+  | zero => constructor <;> (intro t z f i h; simp [zonk, zonkDefs] at h)
+  | succ n ih =>
+    obtain ⟨ih1, ih2⟩ := ih
+    constructor
+    · intro t z f i hz hf hs
+      cases f with
+      | zero => omega
+      | succ f =>
+      cases t
+      case hole id k =>
+        simp only [zonk] at hz
+        split at hz
+        · next sub hsub =>
+          cases hzs : zonk n σ sub with
+          | none => simp [hzs] at hz
+          | some zs =>
+            simp only [hzs, Option.some.injEq] at hz
+            subst hz
+            have hf' := hf
+            rw [ushift_holeFree] at hf'
+            rw [ushift_size] at hs
+            have h1 : sshiftS f 0 (k : Int) sub { store := σ } = .ok (sshift 0 (k : Int) zs) { store := σ } :=
+              sshiftS_total (s := { store := σ }) hzs hf' (by omega)
+            rw [sshift_ushift] at h1
+            have h2 := freeAtS_hf_ok σ (ushift 0 k zs) f i hf (by rw [ushift_size]; omega)
+            simp only [freeAtS, hsub, h1, h2]
+        · simp only [Option.some.injEq] at hz; subst hz; cases hf
+      case lam x im d b =>
+        simp only [zonk] at hz
+        cases hzd : zonk n σ d with
+        | none => simp [hzd] at hz
+        | some zd =>
+          cases hzb : zonk n σ b with
+          | none => simp [hzd, hzb] at hz
+          | some zb =>
+            simp only [hzd, hzb, Option.some.injEq] at hz
+            subst hz
+            simp only [Tm.holeFree, Bool.and_eq_true] at hf
+            simp only [Tm.size] at hs
+            have h1 := ih1 d zd f i hzd hf.1 (by omega)
+            have h2 := ih1 b zb f (i+1) hzb hf.2 (by omega)
+            skip
+            simp only [freeAtS, freeAt, h1, h2, orO]
+      case pi x im d b =>
+        simp only [zonk] at hz
+        cases hzd : zonk n σ d with
+        | none => simp [hzd] at hz
+        | some zd =>
+          cases hzb : zonk n σ b with
+          | none => simp [hzd, hzb] at hz
+          | some zb =>
+            simp only [hzd, hzb, Option.some.injEq] at hz
+            subst hz
+            simp only [Tm.holeFree, Bool.and_eq_true] at hf
+            simp only [Tm.size] at hs
+            have h1 := ih1 d zd f i hzd hf.1 (by omega)
+            have h2 := ih1 b zb f (i+1) hzb hf.2 (by omega)
+            skip
+            simp only [freeAtS, freeAt, h1, h2, orO]
+      case app d b =>
+        simp only [zonk] at hz
+        cases hzd : zonk n σ d with
+        | none => simp [hzd] at hz
+        | some zd =>
+          cases hzb : zonk n σ b with
+          | none => simp [hzd, hzb] at hz
+          | some zb =>
+            simp only [hzd, hzb, Option.some.injEq] at hz
+            subst hz
+            simp only [Tm.holeFree, Bool.and_eq_true] at hf
+            simp only [Tm.size] at hs
+            have h1 := ih1 d zd f i hzd hf.1 (by omega)
+            have h2 := ih1 b zb f i hzb hf.2 (by omega)
+            skip
+            simp only [freeAtS, freeAt, h1, h2, orO]
+      case bin op d b =>
+        simp only [zonk] at hz
+        cases hzd : zonk n σ d with
+        | none => simp [hzd] at hz
+        | some zd =>
+          cases hzb : zonk n σ b with
+          | none => simp [hzd, hzb] at hz
+          | some zb =>
+            simp only [hzd, hzb, Option.some.injEq] at hz
+            subst hz
+            simp only [Tm.holeFree, Bool.and_eq_true] at hf
+            simp only [Tm.size] at hs
+            have h1 := ih1 d zd f i hzd hf.1 (by omega)
+            have h2 := ih1 b zb f i hzb hf.2 (by omega)
+            skip
+            simp only [freeAtS, freeAt, h1, h2, orO]
+      case letg ds b =>
+        simp only [zonk] at hz
+        cases hzd : zonkDefs n σ ds with
+        | none => simp [hzd] at hz
+        | some zd =>
+          cases hzb : zonk n σ b with
+          | none => simp [hzd, hzb] at hz
+          | some zb =>
+            simp only [hzd, hzb, Option.some.injEq] at hz
+            subst hz
+            simp only [Tm.holeFree, Bool.and_eq_true] at hf
+            simp only [Tm.size] at hs
+            have h1 := ih2 ds zd f (i + ds.len) hzd hf.1 (by omega)
+            have h2 := ih1 b zb f (i + ds.len) hzb hf.2 (by omega)
+            have hl : zd.len = ds.len := ZkD_len ⟨n, hzd⟩
+            simp only [freeAtS, freeAt, h1, h2, orO, hl]
+      case neg d =>
+        simp only [zonk] at hz
+        cases hzd : zonk n σ d with
+        | none => simp [hzd] at hz
+        | some zd =>
+          simp only [hzd, Option.some.injEq] at hz
+          subst hz
+          simp only [Tm.holeFree] at hf
+          simp only [Tm.size] at hs
+          have h1 := ih1 d zd f i hzd hf (by omega)
+          simp only [freeAtS, freeAt, h1]
+      case ite a d b =>
+        simp only [zonk] at hz
+        cases hza : zonk n σ a with
+        | none => simp [hza] at hz
+        | some za =>
+          cases hzd : zonk n σ d with
+          | none => simp [hza, hzd] at hz
+          | some zd =>
+            cases hzb : zonk n σ b with
+            | none => simp [hza, hzd, hzb] at hz
+            | some zb =>
+              simp only [hza, hzd, hzb, Option.some.injEq] at hz
+              subst hz
+              simp only [Tm.holeFree, Bool.and_eq_true] at hf
+              simp only [Tm.size] at hs
+              have h0 := ih1 a za f i hza hf.1.1 (by omega)
+              have h1 := ih1 d zd f i hzd hf.1.2 (by omega)
+              have h2 := ih1 b zb f i hzb hf.2 (by omega)
+              simp only [freeAtS, freeAt, h0, h1, h2, orO]
+      all_goals
+        simp only [zonk, Option.some.injEq] at hz; subst hz
+        simp only [freeAtS, freeAt]
+    · intro ds zs f i hz hf hs
+      cases f with
+      | zero => omega
+      | succ f =>
+      cases ds
+      case nil =>
+        simp only [zonkDefs, Option.some.injEq] at hz; subst hz
+        simp only [freeAtDefsS, freeAtDefs]
+      case cons x a d b =>
+        simp only [zonkDefs] at hz
+        cases hza : zonk n σ a with
+        | none => simp [hza] at hz
+        | some za =>
+          cases hzd : zonk n σ d with
+          | none => simp [hza, hzd] at hz
+          | some zd =>
+            cases hzb : zonkDefs n σ b with
+            | none => simp [hza, hzd, hzb] at hz
+            | some zb =>
+              simp only [hza, hzd, hzb, Option.some.injEq] at hz
+              subst hz
+              simp only [Defs.holeFree, Bool.and_eq_true] at hf
+              simp only [Defs.size] at hs
+              have h0 := ih1 a za f i hza hf.1.1 (by omega)
+              have h1 := ih1 d zd f i hzd hf.1.2 (by omega)
+              have h2 := ih2 b zb f i hzb hf.2 (by omega)
+              simp only [freeAtDefsS, freeAtDefs, h0, h1, h2, orO]
+
+theorem freeAtS_total {n f i : Nat} {σ : List (Option Tm)} {t z : Tm}
+    (hz : zonk n σ t = some z) (hf : z.holeFree = true) (hfuel : n + z.size < f) :
+    freeAtS f σ t i = some (freeAt z i) :=
+  (freeAtS_total_aux σ n).1 t z f i hz hf hfuel
+
 /-! ## Observing a run (for `decide`d examples) -/
 
 /-- the value and the final store of a successful run -/
